@@ -555,7 +555,16 @@ func (env *SpecEnv) call(e *SExpr) specVal {
 		if x.t.S == SIfc {
 			r = IfcPtr(x.t)
 		}
-		return specVal{And(fx.isFresh(r), Neq(r, IntLit(0))), tBool}
+		// allocated after the pre-state of this contract (at a call site: during the call)
+		root := r
+		for root.Op == "emb" {
+			root = root.Args[0]
+		}
+		base := fx.entryAlloc
+		if env.old != nil {
+			base = fx.heapGet(env.old, "alloc", SInt)
+		}
+		return specVal{And(Ge(root, base), Neq(r, IntLit(0))), tBool}
 	case "typeis":
 		// typeis(x, T): dynamic type of interface value x is T
 		x := env.expr(e.Args[0])
@@ -761,7 +770,12 @@ func (env *SpecEnv) assignLoc(e *SExpr) *assignLoc {
 			if err != nil {
 				env.fail("%v", err)
 			}
-			return &assignLoc{whole: "G_" + sf.Name, gsort: ArrSort(SInt, fx.e.sortOf(rt))}
+			loc := &assignLoc{whole: "G_" + sf.Name, gsort: ArrSort(SInt, fx.e.sortOf(rt))}
+			if len(e.Args) == 2 {
+				loc.ref = refKey(env.expr(e.Args[1]).t)
+				loc.refKind = "ghost"
+			}
+			return loc
 		}
 	}
 	env.fail("unsupported assigns target %s", e)
